@@ -878,11 +878,19 @@ class Step(Node):
         hash), so keeping the state would only park it in a state nothing takes it out of
         within the same build, while `report_unbuilt` still counts it as a failure.
         """
+        # The shell flag and the environment overrides are ingredients of the step hash.
+        # When one of them differs from the previous definition,
+        # the step must be checked against its stored hash again (and will rerun),
+        # instead of being recycled as up to date.
+        changed = (
+            bool(shell) != self.uses_shell()
+            or dict(env_overrides or {}) != self.get_env_overrides()
+        )
         self.db.execute(
             "UPDATE step SET need = ?, shell = ?, _holding = 0 WHERE node = ?",
             (need.value, int(shell), self.i),
         )
-        if self.get_state() == StepState.FAILED:
+        if changed or self.get_state() == StepState.FAILED:
             self.graph.mark_step_pending(self)
         self.set_resources(resources)
         self.set_env_overrides(env_overrides)
